@@ -7,6 +7,7 @@
    of the unchanged plugin (witness), and holds exactly / at least on the stated domain. *)
 From Coq Require Import ZArith Bool List.
 From J2O Require Import PyLib Dtype Tensor Batch Reshape Graph Lowering LoweringSem OnnxInt Kernels Lift LiftProg LiftReduce LiftCall LiftStruct LiftDyn.
+From J2O Require FloatSpecial.
 Import ListNotations.
 Open Scope Z_scope.
 
@@ -799,3 +800,32 @@ Print Assumptions C01K_dynamic_slice_nd_correct.
 Theorem C01K_select3_kernel_ok : kern_ok ki_select3.
 Proof. exact ki_select3_ok. Qed.
 Print Assumptions C01K_select3_kernel_ok.
+
+(* ================================================================ float kernels on special values (FloatSpecial.v)
+   fv = FloatSpecial.NaN | Inf sign | FloatSpecial.Zero sign | Fin sign magnitude: the domain on which the no-rounding float kernels are decided.
+   jnp.copysign as exported (Where(y < 0, -|x|, |x|)) ignores the sign bit of y = -0.0: refuted, characterised, repaired. *)
+Theorem C01K_copysign_lowered_refuted : exists x y, FloatSpecial.lowered_copysign x y <> FloatSpecial.jax_copysign x y.
+Proof. exact FloatSpecial.copysign_lowered_refuted. Qed.
+Print Assumptions C01K_copysign_lowered_refuted.
+Theorem C01K_copysign_lowered_iff : forall x y, FloatSpecial.lowered_copysign x y = FloatSpecial.jax_copysign x y <-> (y <> FloatSpecial.Zero true \/ x = FloatSpecial.NaN).
+Proof. exact FloatSpecial.copysign_lowered_iff. Qed.
+Print Assumptions C01K_copysign_lowered_iff.
+Theorem C01K_copysign_repaired_correct : forall x y, FloatSpecial.repaired_copysign x y = FloatSpecial.jax_copysign x y.
+Proof. exact FloatSpecial.copysign_repaired_correct. Qed.
+Print Assumptions C01K_copysign_repaired_correct.
+(* sign: ONNX Sign maps every zero to +0, XLA keeps the operand's zero *)
+Theorem C01K_float_sign_lowered_iff : forall x, FloatSpecial.onnx_sign x = FloatSpecial.jax_sign x <-> x <> FloatSpecial.Zero true.
+Proof. exact FloatSpecial.sign_lowered_iff. Qed.
+Print Assumptions C01K_float_sign_lowered_iff.
+Theorem C01K_float_sign_repaired_correct : forall x, FloatSpecial.repaired_sign x = FloatSpecial.jax_sign x.
+Proof. exact FloatSpecial.sign_repaired_correct. Qed.
+Print Assumptions C01K_float_sign_repaired_correct.
+(* maximum / minimum: FloatSpecial.NaN propagates, +0 > -0; relu; clamp with lo > hi *)
+Theorem C01K_float_max_min_special : (forall x, FloatSpecial.fmax FloatSpecial.NaN x = FloatSpecial.NaN /\ FloatSpecial.fmax x FloatSpecial.NaN = FloatSpecial.NaN /\ FloatSpecial.fmin FloatSpecial.NaN x = FloatSpecial.NaN /\ FloatSpecial.fmin x FloatSpecial.NaN = FloatSpecial.NaN)
+  /\ FloatSpecial.fmax (FloatSpecial.Zero true) (FloatSpecial.Zero false) = FloatSpecial.Zero false /\ FloatSpecial.fmin (FloatSpecial.Zero false) (FloatSpecial.Zero true) = FloatSpecial.Zero true
+  /\ (forall x, FloatSpecial.fmax x (FloatSpecial.Zero false) = FloatSpecial.fmax (FloatSpecial.Zero false) x)
+  /\ (forall x, x <> FloatSpecial.NaN -> FloatSpecial.fmin (FloatSpecial.fmax x (FloatSpecial.one false)) (FloatSpecial.one true) = FloatSpecial.one true).
+Proof.
+  split; [exact FloatSpecial.max_nan_propagates|]. split; [reflexivity|]. split; [reflexivity|]. split; [exact FloatSpecial.relu_commutes | exact FloatSpecial.clamp_lo_gt_hi].
+Qed.
+Print Assumptions C01K_float_max_min_special.
